@@ -16,7 +16,7 @@ def sim_exe(flavour="asan", transport="nompi"):
 
 
 def make_cases(prop, tier, seed, n, variants=(0,), fp_levels=(1, 2, 3), sizes=(0, 0, 1), gvts=None, ckpts=None, threads=None,
-               flavours=("asan",), stats=False, model_base=None, same_model_group=1, burst=0):
+               flavours=("asan",), stats=False, model_base=None, same_model_group=1, burst=0, stateless=0):
     """n cases; same_model_group>1 => consecutive cases share the model seed (different configurations)."""
     cases = []
     exes = {fl: sim_exe(fl) for fl in flavours}
@@ -35,6 +35,9 @@ def make_cases(prop, tier, seed, n, variants=(0,), fp_levels=(1, 2, 3), sizes=(0
         if burst and k % burst == burst - 2:
             # "burst" models: integer timestamps, chains of up to 12 simultaneous hops (many causally independent events at the timestamp of a GVT)
             c["env"] = {"VM_FORCE_TS": "3", "VM_FORCE_RNG": "0"}
+        elif stateless and k % stateless == stateless - 3:
+            # a third of the LPs never call SetState() and decide everything with the library generator (its context is all their state)
+            c["env"] = {"VM_STATELESS": "1", "VM_FORCE_RNG": "1"}
         if stats:
             c["stats"] = os.path.join(vlib.BUILD, "stats", "%s_%d_%d" % (prop, os.getpid(), k))
         cases.append(c)
@@ -125,7 +128,7 @@ def run_sim_for(chk, prop, tier, seed):
     (fossil cut at a checkpoint at/below the committed frontier, rollbacks right after a collection)."""
     if prop == "C05":
         n = 60 if tier == "quick" else 500
-        cases = make_cases(prop, tier, seed, n, variants=(0,), fp_levels=(1, 10, 2, 3, 10), sizes=(0, 0, 1), ckpts=[0, 1, 2, 3, 5, 7, 64, 16], burst=5)
+        cases = make_cases(prop, tier, seed, n, variants=(0,), fp_levels=(1, 10, 2, 3, 10), sizes=(0, 0, 1), ckpts=[0, 1, 2, 3, 5, 7, 64, 16], burst=5, stateless=7)
     else:
         n = 60 if tier == "quick" else 500
         cases = make_cases(prop, tier, seed, n, variants=(0, 0, 1), fp_levels=(2, 10, 3, 1, 10), sizes=(0, 0, 1), gvts=[0, 0, 20, 0, 100], ckpts=[1, 2, 3, 4, 5, 6, 7], burst=5)
